@@ -407,6 +407,7 @@ def run(fx, tier):
                     key='C10:R-ARITH:backoff-armed-with-generate', where='%s:%d' % (f.path_file(), l_))
     if n_arm == 0 and not v.violations:
         raise AnalysisBroken('reconnect_op::backoff_and_reconnect: expires_after not found')
+    host_rotation_table_rule(fx, v, 'C10')
     # back-off only on wrap-around
     callers = [c for c in cg.callers_of(lambda c, n: c.cls == 'reconnect_op' and c.n == 'backoff_and_reconnect')]
     for caller, n, line in callers:
@@ -576,3 +577,62 @@ def ctor_use_after_move_rule(fx, v, prop='C10'):
                 key=prop + ':R-OWN:%s:ctor-use-after-move' % f.cls, where=f.d.get('f'))
     if n < 10 and not v.violations:
         raise AnalysisBroken('constructors that move a parameter into a member: only %d found' % n)
+
+
+def host_rotation_table_rule(fx, v, prop='C10'):
+    """"the next broker of the list is tried in order ... when the list wraps around": resolve_op::perform folded over list sizes
+    1..4 and every position of the cursor (-1 .. n-1): the cursor advances by one; while it stays inside the list that host (and
+    no other index) is read and resolved; past the end the cursor is reset to -1 and try_again is reported without reading the
+    list.  (An index equal to the size is an out-of-bounds read.)"""
+    from fold import fold, Unfoldable
+    from arith import ieval
+    n = 0
+    for f in fx.functions(cls='resolve_op', name='perform'):
+        n += 1
+        v.saw(f)
+        bad = []
+        rows = 0
+        try:
+            for size in (1, 2, 3, 4):
+                for cur in range(-1, size):
+                    reads = []
+
+                    def cv(x, env_=None, size=size, reads=reads):
+                        nm = callee_name(x)
+                        on_servers = contains(x.get('obj') if x.get('obj') is not None else x.get('args', [])[:1],
+                                              lambda m: m.get('k') == 'mem' and m.get('n') == '_servers')
+                        if nm == 'size' and on_servers:
+                            return size
+                        if nm == 'empty' and on_servers:
+                            return int(size == 0)
+                        return None
+                    outs = []
+                    for pth in fold(fx, f, {'_current_host': cur}, effects=('complete_post', 'complete', 'async_resolve', 'operator[]', 'at'), call_values=cv):
+                        if pth.get('noret'):
+                            continue
+                        outs.append(pth)
+                    rows += 1
+                    want_idx = cur + 1
+                    for pth in outs:
+                        names = [nme for nme, c, x, l in pth['effects']]
+                        idx = []
+                        for (nme, c, x, l), env_at in zip(pth['effects'], pth['envs']):
+                            if nme in ('operator[]', 'at') and contains(x, lambda m: m.get('k') == 'mem' and m.get('n') == '_servers'):
+                                a = [y for y in x.get('args', []) if not contains(y, lambda m: m.get('k') == 'mem' and m.get('n') == '_servers')]
+                                try:
+                                    idx.append(ieval(origin(f, a[-1]), env_at))
+                                except Exception:
+                                    idx.append('?')
+                        if want_idx < size:
+                            ok = 'async_resolve' in names and idx == [want_idx] and 'complete_post' not in names and 'complete' not in names
+                        else:
+                            ok = idx == [] and 'async_resolve' not in names and ('complete_post' in names or 'complete' in names)
+                        if not ok:
+                            bad.append('%d host(s), cursor %d: %s, index read %s' % (size, cur, names, idx))
+        except Unfoldable as ex:
+            raise AnalysisBroken('resolve_op::perform rotation table: %s' % ex)
+        v.check(not bad and rows > 0, 'R-ARITH', 'resolve_op::perform%s rotation table [%s] (%d rows)' % (f.inst()[:20], f.tu, rows),
+                'inside the list the next host (index cursor+1) is read and resolved; past the end nothing is read and the wrap is reported'
+                if not bad else '; '.join(bad[:3]), key=prop + ':R-ARITH:resolve_op:rotation-table', where=f.file)
+    if n == 0 and not v.violations:
+        raise AnalysisBroken('resolve_op::perform not found')
